@@ -233,6 +233,12 @@ macro_rules! run_aff {
                 let x = vecn!($V, $S, p, $N);
                 out.push(("transform_point".into(), stringify!($tp), ints(&e["tp"]), a.$tp(x).to_array().iter().map(|c| *c as f64).collect()));
                 out.push(("transform_vector".into(), stringify!($tv), ints(&e["tv"]), a.$tv(x).to_array().iter().map(|c| *c as f64).collect()));
+                // a direction ignores the translation altogether -- also a non-finite one (adding translation * 0 would give NaN)
+                {
+                    let mut wild = a;
+                    wild.translation = <LV!($A)>::from_array(core::array::from_fn(|i| [<$S>::INFINITY, <$S>::NEG_INFINITY, <$S>::NAN][i % 3])).into();
+                    out.push(("transform_vector (non-finite translation)".into(), stringify!($tv), ints(&e["tv"]), wild.$tv(x).to_array().iter().map(|c| *c as f64).collect()));
+                }
             )+
             // the stored columns: linear part then translation
             let mut stored = l.clone(); stored.extend(&t);
